@@ -467,3 +467,10 @@ func SpecRoot(start string) string {
 //@   ensures none-found: implies(err != nil, SpecRoot(startPath) == "")
 //@   loop 0 invariant len(currentPath) > 0 && currentPath[0] == '/' && SpecRoot(startPath) == SpecRoot(currentPath)
 //@   loop 0 decreases len(currentPath)
+
+// ---- C08: a fresh context and assembler per assembly file ----------------------------------
+// runAssemble must establish Run's precondition (empty stash, empty operator): it can only
+// do so by creating both itself.
+//@ contract runAssemble
+//@   tags C08 C16
+//@   results r
